@@ -474,6 +474,20 @@ def r74(ctx, fx):
         closes = [bi for bi, t in lib.calls(f) if lib.pm(lib.callee(t)[0], closer) or lib.pm(lib.callee(t)[0], closer.replace("remove", "shift_remove")) or
                   lib.pm(lib.callee(t)[0], closer.replace("remove", "swap_remove"))]
         rets = lib.return_blocks(f)
+        if nm.endswith("with_dummy_segment"):
+            # the segment that the insert replaced (dummy segments nest: a branch that is not taken inside a macro that is not invoked) is put back
+            # after the callback — a second insert, which closes like the removal does
+            cb0 = [bi for bi, t in lib.calls(f) if lib.pm(lib.callee(t)[0], "FnOnce::call_once")]
+            after0 = lib.reachable(f, f.blocks[cb0[0]]["term"]["target"]) if len(cb0) == 1 else set()
+            reinserts = [bi for bi in opens if bi in after0]
+            opens = [bi for bi in opens if bi not in after0]
+            closes += reinserts
+            kn = "%s|nests" % nm
+            ctx.inst(rid, kn, sample={"puts_back_the_replaced_segment": bool(reinserts)})
+            if not reinserts:
+                ctx.finding(rid, kn, "with_dummy_segment removes `$dummy` when it is done, whether or not there was one before: inside an enclosing dummy segment (an "
+                            "`.if 0 { }` in the body of a macro that is not invoked, in a `.test`, in another untaken branch) the rest of the enclosing analysis has "
+                            "no current segment and the language server panics on a valid program", f.where)
         key = "%s|balanced" % nm
         ctx.inst(rid, key, sample={"open_sites": len(opens), "close_sites": len(closes)})
         if len(opens) != 1 or not closes:
